@@ -35,6 +35,9 @@ type Reg struct {
 	R string `json:"r"`
 	// H are header constraints as name/expression pairs (C09).
 	H []string `json:"h,omitempty"`
+	// HC: afterwards Headers() is called once more with no pairs at all, which
+	// replaces the set by the empty one.
+	HC bool `json:"h_cleared,omitempty"`
 }
 
 // Req is one request.
@@ -265,6 +268,9 @@ func (a *App) Register(i int, g Reg) (err interface{}) {
 	if len(g.H) > 0 {
 		r.Headers(g.H...)
 	}
+	if g.HC {
+		r.Headers()
+	}
 	return nil
 }
 
@@ -288,6 +294,9 @@ func (a *App) RegisterRoutes(i int, g Reg) (err interface{}) {
 	})
 	if len(g.H) > 0 {
 		r.Headers(g.H...)
+	}
+	if g.HC {
+		r.Headers()
 	}
 	return nil
 }
